@@ -285,3 +285,14 @@ Theorem gcxs_reduce_rows_exact : forall t d_self R C nnz,
   rmap tv (m_gcxs_reduce_rows (DInt t) d_self R C nnz) = rmap tv (m_gcxs_reduce_rows DInf DInf R C nnz).
 Proof. exact gcxs_reduce_rows_exact_proof. Qed.
 Print Assumptions gcxs_reduce_rows_exact.
+
+(* ---- broadcasting (broadcast_to, element-wise operands with a length-1 or missing axis): the positions
+        along the grown axis are written into an array of the regenerated dtype s_expanded_coords_dtype
+        (intp), so they are exact for every coordinate dtype of the operand, also when the new extent
+        exceeds that dtype *)
+Theorem broadcast_positions_exact : forall t n,
+  n < 2 ^ 63 ->
+  tv (m_broadcast_positions (DInt t) n) = zrange_ n /\
+  m_broadcast_positions (DInt t) n = m_broadcast_positions DInf n.
+Proof. exact broadcast_positions_exact_proof. Qed.
+Print Assumptions broadcast_positions_exact.
